@@ -8,7 +8,8 @@
     guarded by an executable conjunct of [printable] ([num_ok], [order_ok], [math_ok]). *)
 From Coq Require Import String Ascii List Bool ZArith.
 From LC Require Import Common NumDefs XmlDefs EntTreeDefs PrintDefs LoadDefs RoundtripSpec XmlTextProofs
-     RoundtripReadProofs RoundtripLoadProofs RoundtripFlatProofs RoundtripWitness.
+     RoundtripReadProofs RoundtripLoadProofs RoundtripFlatProofs RoundtripEncProofs RoundtripOrderProofs
+     RoundtripStableProofs RoundtripWitness.
 From LCGen Require RuleTable.
 Import ListNotations.
 Local Open Scope string_scope.
@@ -51,6 +52,92 @@ Theorem C02_roundtrip_flat : forall E fx m, printable E true m -> flat m = true 
   print_model E true m = Some (print_tree E m) /\ load E fx true (print_tree E m) = (canon E m, []).
 Proof. exact RoundtripFlatProofs.roundtrip_flat. Qed.
 Print Assumptions C02_roundtrip_flat.
+
+(** * roundtrip, stage 3 (as above plus an encapsulation hierarchy of any depth with encapsulation ids; no imports, no
+      connections): the re-parsed model is canon m with the top-level components that head a hierarchy moved behind the
+      others ([enc_order]); hence the same content up to child order, and no issue *)
+Theorem C02_roundtrip_encapsulation_exact : forall E fx m, printable E true m -> no_imports m = true -> no_connections m = true ->
+  load E fx true (print_tree E m)
+  = ({| m_name := m_name m; m_id := m_id m; m_encid := m_encid m; m_units := map (canon_units E) (m_units m);
+        m_comps := map (canon_comp E) (enc_order (m_comps m)); m_eqv := [] |}, []).
+Proof. exact RoundtripEncProofs.load_print_tree_enc. Qed.
+Print Assumptions C02_roundtrip_encapsulation_exact.
+
+Theorem C02_roundtrip_partial : forall E fx m, printable E true m -> no_imports m = true -> no_connections m = true ->
+  exists m', print_model E true m = Some (print_tree E m) /\ load E fx true (print_tree E m) = (m', [])
+             /\ content_eq m' (canon E m).
+Proof. exact RoundtripEncProofs.roundtrip_enc. Qed.
+Print Assumptions C02_roundtrip_partial.
+
+(** loadComponentRef rebuilds the subtree under a component_ref from the flat components, by name *)
+Theorem C02_component_ref_subtree : forall E c F used is, conds E (dfs c) F used ->
+  load_cref (print_encapsulation ident c) (mk_st F used is)
+  = (Some (canon_comp E c), mk_st (remove_names (names (dfs c)) F) (used ++ names (dfs c)) is).
+Proof. exact RoundtripEncProofs.cref_ok. Qed.
+Print Assumptions C02_component_ref_subtree.
+
+(** content equality up to child order is reflexive (so the exact theorems above are instances of the property) *)
+Theorem C02_content_eq_refl : forall m, content_eq m m.
+Proof. exact RoundtripEncProofs.content_eq_refl. Qed.
+Print Assumptions C02_content_eq_refl.
+
+(** * second_print_stable (flat models): if the environment is stable — a value that went through 15 digits prints the
+      same 15 digits again; the serialisation of normalised mathematics normalises to itself: the round-trip hypothesis
+      on libc / libxml2, stated as hypotheses — then the re-parsed model is printable again, canon is idempotent on it,
+      and printing + strict parsing it gives it back, without any issue *)
+Theorem C02_second_print_stable_flat : forall E,
+  (forall x, num_ok E x = true -> num_ok E (round15 E x) = true /\ round15 E (round15 E x) = round15 E x) ->
+  (forall s, math_ok E s = true -> math_ok E (canon_math E s) = true /\ canon_math E (canon_math E s) = canon_math E s
+                                  /\ has_math E (canon_math E s) = has_math E s) ->
+  forall fx m, printable E true m -> flat m = true ->
+    printable E true (canon E m) /\ canon E (canon E m) = canon E m
+    /\ print_model E true (canon E m) = Some (print_tree E (canon E m))
+    /\ load E fx true (print_tree E (canon E m)) = (canon E m, []).
+Proof. exact RoundtripStableProofs.second_print_flat. Qed.
+Print Assumptions C02_second_print_stable_flat.
+
+(** the two hypotheses are satisfiable *)
+Example C02_stable_env_exists :
+  (forall x, num_ok E_stable x = true -> num_ok E_stable (round15 E_stable x) = true /\ round15 E_stable (round15 E_stable x) = round15 E_stable x)
+  /\ (forall s, math_ok E_stable s = true ->
+        math_ok E_stable (canon_math E_stable s) = true /\ canon_math E_stable (canon_math E_stable s) = canon_math E_stable s
+        /\ has_math E_stable (canon_math E_stable s) = has_math E_stable s).
+Proof. exact RoundtripStableProofs.stable_env_exists. Qed.
+Print Assumptions C02_stable_env_exists.
+
+(** * the grouping logic of the printer, for EVERY input order *)
+
+(** printConnections = one connection element per group of [conn_groups] *)
+Theorem C02_connections_are_groups : forall av cs l done,
+  print_connections av cs l done = map (render_group av cs) (conn_groups l done).
+Proof. exact RoundtripOrderProofs.print_connections_groups. Qed.
+Print Assumptions C02_connections_are_groups.
+
+(** no map_variables is lost, none is written twice *)
+Theorem C02_connections_complete : forall l, Permutation.Permutation (concat (conn_groups l [])) l.
+Proof. exact RoundtripOrderProofs.conn_groups_complete. Qed.
+Print Assumptions C02_connections_complete.
+
+(** every connection joins one ordered component pair, and no two connections share it *)
+Theorem C02_connections_uniform : forall l done grp, In grp (conn_groups l done) ->
+  exists e rest, grp = e :: rest /\ forall x, In x rest -> me_pair x = me_pair e.
+Proof. exact RoundtripOrderProofs.conn_groups_uniform. Qed.
+Print Assumptions C02_connections_uniform.
+
+Theorem C02_connections_distinct : forall l,
+  NoDup (map (fun grp => match grp with e :: _ => me_pair e | [] => ([], []) end) (conn_groups l [])).
+Proof. intros l. exact (proj1 (RoundtripOrderProofs.conn_groups_distinct l [])). Qed.
+Print Assumptions C02_connections_distinct.
+
+(** printImports: one import element per ImportSource object, and every imported units has its element *)
+Theorem C02_import_sources_distinct : forall m, NoDup (map is_tag (the_sources m)).
+Proof. exact RoundtripOrderProofs.the_sources_nodup. Qed.
+Print Assumptions C02_import_sources_distinct.
+
+Theorem C02_imported_units_covered : forall m u i, In u (m_units m) -> u_src u = Some i ->
+  exists j, In j (the_sources m) /\ tag_is (is_tag j) (u_src u) = true.
+Proof. exact RoundtripOrderProofs.imported_units_covered. Qed.
+Print Assumptions C02_imported_units_covered.
 
 (** the loader, element by element (used by every stage) *)
 Theorem C02_load_unit : forall E d, unitdef_ok E true d = true -> load_unit E (print_unit E ident d) = (canon_unitdef E d, []).
@@ -99,10 +186,14 @@ Theorem C02_rules_in_table : forallb (fun r => existsb (String.eqb r) LCGen.Rule
 Proof. vm_compute. reflexivity. Qed.
 Print Assumptions C02_rules_in_table.
 
-(* NOT PROVED (stages 3-5 of the plan, see design_notes/C02.md):
-   roundtrip : forall E m, printable E true m ->
-     exists m', load E true true (print_tree E m) = (m', []) /\ content_eq m' (canon E m)
-   for models WITH an encapsulation hierarchy, connections or imports.  What is proved for them: C02_print_nonempty,
-   C02_no_namespace_issues, the element-level loader theorems above, the subtree theorem of loadComponentRef
-   (RoundtripEncProofs.cref_ok); the instance of the statement is CHECKED on every generated model by the
-   correspondence run (the extracted [printableb], [load], [canon] are evaluated and compared up to child order). *)
+(* NOT PROVED (stages 4 and 5 of the plan: connections, imports; see design_notes/C02.md):
+   roundtrip : forall E fx m, printable E true m ->
+     exists m', load E fx true (print_tree E m) = (m', []) /\ content_eq m' (canon E m)
+   for models WITH connections or imports (C02_roundtrip_partial is this statement under the two extra hypotheses
+   no_imports m and no_connections m).  What IS proved for them: C02_print_nonempty (the document exists and is the
+   intended tree), C02_no_namespace_issues, the element-level loader theorems, the subtree theorem of loadComponentRef;
+   one closed instance with every feature (C02_full_model_round_trips); and the instance of the statement is CHECKED
+   on every generated model by the correspondence run (the extracted printableb / load / canon are evaluated and
+   compared up to child order: "model instance of the round-trip theorem").
+   second_print_stable is proved for flat models (C02_second_print_stable_flat); beyond, it is checked (second print /
+   second parse compared on every case). *)
